@@ -28,7 +28,7 @@ THEOREMS = [
     "PyTrie.Props.C18.nibble_entry_points",
     "PyTrie.Props.C18.explore_bad_prefix",
 ]
-RULE = ("the table {public entry point} x {argument position} x {kind of bad value: str, int, None, list, dict, bytes of the wrong "
+RULE = ("the table {public entry point} x {argument position} x {kind of bad value: str, int, None, list, dict, bytearray / memoryview (also of the right length), bytes of the wrong "
         "length, non-sequence / bytes / str where nibbles are expected, out-of-range / non-int nibbles, key size outside 1..32, "
         "snapshot of a pruning trie, reference count for a non-pruning trie} applied at random points of random histories of "
         "HexaryTrie (prune on/off), BinaryTrie (+ branch helpers), SparseMerkleTree, SparseMerkleProof and HexaryTrieFog; the "
@@ -41,7 +41,11 @@ ASSUMPTIONS = ["entry points that do not validate an argument are not in the tab
                "of any length; HexaryTrie does not validate nibble paths beyond Nibbles())"]
 BUDGET_S = {"quick": 60, "thorough": 600}
 
-BAD_BYTES = [("S", "abc"), ("I5", 5), ("N", None), ("LI1;I2", [1, 2]), ("D", {})]
+# bytearray / memoryview: bytes-like but not byte strings (mutable buffers; the code demands `bytes`) - also at exactly the
+# length a key or hash must have, so that only the type can be the reason for the refusal
+BAD_BYTES = [("S", "abc"), ("I5", 5), ("N", None), ("LI1;I2", [1, 2]), ("D", {}),
+             ("Y", bytearray(b"\x12\x01")), ("Y", bytearray(b"\x07" * 32)), ("Y", bytearray(b"\x12")),
+             ("Y", memoryview(b"\x12\x01"))]
 BAD_NIBBLES_TYPE = [("B01", b"\x01"), ("S", "12"), ("I3", 3), ("N", None), ("D", {})]
 BAD_NIBBLES_VALUE = [("LI16", [16]), ("LI-1", [-1]), ("LS", ["F"]), ("LN", [None]), ("LI1;I300", [1, 300])]
 
@@ -49,6 +53,8 @@ BAD_NIBBLES_VALUE = [("LI16", [16]), ("LI-1", [-1]), ("LS", ["F"]), ("LN", [None
 def tok(v):
     if isinstance(v, bytes):
         return "B" + hx(v)
+    if isinstance(v, (bytearray, memoryview)):
+        return "Y" + hx(bytes(v))
     if isinstance(v, str):
         return "S"
     if v is None:
